@@ -17,6 +17,10 @@ var commonAssumptions = []string{
 }
 
 var propMeta = map[string]PropMeta{
+	"C13": {
+		NotCovered: "The legacy SSE server's handleMessage/handleSSE and the prompt/resource list filters follow the same pattern and are not yet under contract; what user-supplied context functions, filters and handlers do with the context; true concurrency (the frame argument: request paths cannot write configuration fields, so nothing request-derived can be parked where another request reads it).",
+		Assumptions: append([]string{"context.WithValue/WithCancel/WithTimeout and internal/context.WithoutCancel derive a context whose Value agrees with the parent except for the added key", "HTTP context functions are deterministic functions of (context, request)"}, commonAssumptions...),
+	},
 	"C19": {
 		NotCovered: "Multi-valued static headers are covered per key (the outer loop visits every key), not per value; the before-request function may itself modify the request; answers to server-issued requests are sent with a fresh 30 s context, not with the handshake's context values (the property asks for the handshake's values for background streams: not decided, see DESIGN.md).",
 		Assumptions: append([]string{"http.NewRequestWithContext returns a request for the given URL with a non-nil URL and header; the user's HTTPBeforeRequestFunc is counted once per invocation (ghost instrumentation)", "transport configuration fields are written only by the constructors and option functions listed as init"}, commonAssumptions...),
